@@ -14,7 +14,7 @@
    trusted base. *)
 From Coq Require Import NArith ZArith List Bool.
 From Tinode Require Import Base.Base64Lite Pure.Token Pure.TokenProofs Pure.Code Pure.CodeProofs
-  Pure.ApiKey Pure.Basic Pure.SecretsProofs.
+  Pure.ApiKey Pure.Basic Pure.SecretsProofs Sys.Relogin Sys.ReloginProofs.
 Import ListNotations.
 Open Scope N_scope.
 
@@ -297,3 +297,254 @@ Example c12_ex_code_lockout :
   snd (crun cfg cinit [CGen [97] 9 0 [49; 50]; CAuth [49; 51; 58; 97]; CAuth [49; 52; 58; 97]; CAuth [49; 50; 58; 97]])
   = [CGenOk [49; 50]; CErr CEFailed; CErr CEFailed; CErr CEFailed].
 Proof. reflexivity. Qed.
+
+(* ------------------------------ token re-issuance on {login} ------------------------------ *)
+(* Session.login / Session.onLogin (Sys/Relogin.v): which token is handed back after a login by
+   token, by reset code, by password; with which user, level, feature flags and expiry.
+   [tok_fields] = the signed fields of a token, [tok_expiry] its expiry second,
+   [tok_restricted] = the no-login feature bit (auth.FeatureNoLogin) is signed into it.
+   Every theorem holds for every keyed hash, configuration, environment (user state,
+   validators), starting session, and instant. *)
+Open Scope Z_scope.
+
+(* (ii) presenting a restricted token never authenticates the session: every branch of login *)
+Theorem c12_relogin_restricted_never_authenticates :
+  forall (mac : list N -> list N -> list N) c env s clk tok,
+  tok_restricted tok = true ->
+  fst (login mac c env s clk (SecToken tok)) = s.
+Proof. exact restricted_never_authenticates. Qed.
+Print Assumptions c12_relogin_restricted_never_authenticates.
+
+(* one login with a restricted token, processed promptly (clock readings ordered, less than
+   0.9995 s from the expiry check to GenSecret): the session is left alone, the token handed back
+   is restricted, signed for the same user and level, and expires no later than - in fact in
+   the very second in which - the presented token expires *)
+Theorem c12_relogin_restricted_step :
+  forall (mac : list N -> list N -> list N) c env s clk tok s' code tok' exp,
+  tok_restricted tok = true -> prompt clk ->
+  login mac c env s clk (SecToken tok) = (s', mkLO code (Some (tok', exp))) ->
+  s' = s /\ tok_restricted tok' = true /\
+  f_uid (tok_fields tok') = (f_uid (tok_fields tok) mod 2 ^ 64)%N /\
+  f_level (tok_fields tok') = f_level (tok_fields tok) /\
+  tok_expiry tok' <= tok_expiry tok /\
+  (tok_expiry tok < 2 ^ 32 -> tok_expiry tok' = tok_expiry tok).
+Proof. exact restricted_step. Qed.
+Print Assumptions c12_relogin_restricted_step.
+
+(* (i)+(ii) ARBITRARY chains of logins: [chain mac c tok0 tok] = tok is tok0 or was handed back by
+   a (prompt) login - any session, any environment, any instant - that presented a token of the
+   chain.  Every token derived from a restricted secret is restricted, for the same level (and
+   user), and its expiry second never exceeds that of the secret the chain started from. *)
+Theorem c12_relogin_chain :
+  forall (mac : list N -> list N -> list N) c tok0 tok,
+  chain mac c tok0 tok -> tok_restricted tok0 = true ->
+  tok_restricted tok = true /\ tok_expiry tok <= tok_expiry tok0 /\
+  f_level (tok_fields tok) = f_level (tok_fields tok0) /\
+  ((f_uid (tok_fields tok0) < 2 ^ 64)%N -> f_uid (tok_fields tok) = f_uid (tok_fields tok0)).
+Proof. exact chain_restricted. Qed.
+Print Assumptions c12_relogin_chain.
+
+(* ... hence no token of the chain is accepted (by any key / serial) at or after the expiry
+   instant of the secret the chain started from: exchanging a restricted secret again and
+   again buys no time *)
+Theorem c12_relogin_chain_never_outlives :
+  forall (mac : list N -> list N -> list N) c tok0 tok key sn now r,
+  chain mac c tok0 tok -> tok_restricted tok0 = true ->
+  authenticate mac key sn now tok = TOk r ->
+  now + second <= tok_expiry tok0 * second.
+Proof. exact chain_never_outlives. Qed.
+Print Assumptions c12_relogin_chain_never_outlives.
+
+(* the same over HISTORIES: a list of logins, each with its own session, environment and clock,
+   each presenting either an independently obtained secret ([Indep]) or the token handed back by
+   an earlier login of the list ([Earlier j]); [descends reqs i k] = login k presents the token of
+   a login that presents the token of ... login i.  Whatever else happens in the history, a token
+   that descends from a restricted one is restricted and does not expire later, ... *)
+Theorem c12_relogin_history :
+  forall (mac : list N -> list N -> list N) c reqs i k ti tk,
+  (forall r, In r reqs -> prompt (rq_clk r)) ->
+  descends reqs i k ->
+  out_tok (nth i (history mac c reqs) no_out) = Some ti ->
+  out_tok (nth k (history mac c reqs) no_out) = Some tk ->
+  tok_restricted ti = true ->
+  tok_restricted tk = true /\ tok_expiry tk <= tok_expiry ti.
+Proof. exact history_restricted. Qed.
+Print Assumptions c12_relogin_history.
+
+(* ... and the login that presents it leaves its session as it was *)
+Theorem c12_relogin_history_never_authenticates :
+  forall (mac : list N -> list N -> list N) c reqs j k r tj,
+  nth_error reqs k = Some r -> rq_src r = Earlier j -> (j < k)%nat ->
+  out_tok (nth j (history mac c reqs) no_out) = Some tj -> tok_restricted tj = true ->
+  fst (nth k (history mac c reqs) no_out) = rq_sess r.
+Proof. exact history_never_authenticates. Qed.
+Print Assumptions c12_relogin_history_never_authenticates.
+
+(* the statement without the promptness premise *)
+Definition c12_relogin_never_outlives_statement : Prop := relogin_never_outlives_statement.
+
+(* the faithful model refutes it: the remaining lifetime is measured by time.Until inside
+   Authenticate and added to a LATER time.Now() inside GenSecret; a login that stalls for two
+   seconds between the two hands back a token that expires two seconds later (witness) *)
+Theorem c12_relogin_never_outlives_refuted : ~ c12_relogin_never_outlives_statement.
+Proof. exact relogin_never_outlives_refuted. Qed.
+Print Assumptions c12_relogin_never_outlives_refuted.
+
+(* ... and that is all there is to it: for ANY clock the excess is at most the time the login
+   itself took between the two readings plus the half millisecond of rounding, provided
+   time.Until still saw a positive remaining lifetime (the premise excludes exactly the case
+   [relogin_zero_remaining_gets_default] below) *)
+Theorem c12_relogin_never_outlives_partial :
+  forall (mac : list N -> list N -> list N) c env s clk tok s' code tok' exp,
+  tok_restricted tok = true ->
+  0 <= t_auth clk -> t_until clk <= t_gen clk -> t_until clk < tok_expiry tok * second ->
+  login mac c env s clk (SecToken tok) = (s', mkLO code (Some (tok', exp))) ->
+  s' = s /\ tok_restricted tok' = true /\
+  f_uid (tok_fields tok') = (f_uid (tok_fields tok) mod 2 ^ 64)%N /\
+  f_level (tok_fields tok') = f_level (tok_fields tok) /\
+  tok_expiry tok' * second <= tok_expiry tok * second + (t_gen clk - t_until clk) + 500000.
+Proof. exact restricted_step_general. Qed.
+Print Assumptions c12_relogin_never_outlives_partial.
+
+(* remaining lifetime exactly 0 ns at time.Until (needs more than a second between two
+   statements of Authenticate): GenSecret reads 0 as "default": model-only observation *)
+Example c12_relogin_zero_remaining_gets_default :
+  let clk := mkClk wT (wT + 3600 * second) (wT + 3600 * second) in
+  match login wmac wcfg wenv (mkSess 0 0) clk (SecToken wtok) with
+  | (_, mkLO _ (Some (tok', _))) => tok_expiry tok' = tok_expiry wtok + 1209600 /\ tok_restricted tok' = true
+  | _ => False
+  end.
+Proof. exact relogin_zero_remaining_gets_default. Qed.
+
+(* (iii) a full login - any scheme; record without the no-login bit, user in state OK, nothing
+   left to validate: the session is authenticated as exactly the record's user and level, and
+   the token handed back is GenSecret of (that user, that level, features + validated,
+   Lifetime 0 = the CONFIGURED lifetime counted from this login) *)
+Theorem c12_relogin_full_login :
+  forall (mac : list N -> list N -> list N) c env s clk sec rec,
+  s_uid s = 0%N -> sec <> SecUnknownScheme ->
+  authenticate_secret mac c env clk sec = ARec rec ->
+  le_state_ok env = true ->
+  has_feature (g_features rec) feature_nologin = false ->
+  (has_feature (g_features rec) feature_validated = true \/ le_unvalidated env = false) ->
+  login mac c env s clk sec =
+  (mkSess (g_uid rec) (g_level rec),
+   mkLO LOk200 (Some (issue_at mac (tc_key c) (tc_serial c) (round_ms (t_gen clk + tc_lifetime c))
+                        (mkG (g_uid rec) (g_level rec) (N.lor (g_features rec) feature_validated) 0),
+                      round_ms (t_gen clk + tc_lifetime c)))).
+Proof. exact full_login. Qed.
+Print Assumptions c12_relogin_full_login.
+
+(* ... and that token is not accepted beyond the configured lifetime counted from the login *)
+Theorem c12_relogin_full_login_bound :
+  forall (mac : list N -> list N -> list N) c env s clk sec rec s' code tok exp key' sn' now r,
+  0 <= t_gen clk -> 0 < tc_lifetime c ->
+  s_uid s = 0%N -> sec <> SecUnknownScheme ->
+  authenticate_secret mac c env clk sec = ARec rec ->
+  le_state_ok env = true ->
+  has_feature (g_features rec) feature_nologin = false ->
+  (has_feature (g_features rec) feature_validated = true \/ le_unvalidated env = false) ->
+  login mac c env s clk sec = (s', mkLO code (Some (tok, exp))) ->
+  authenticate mac key' sn' now tok = TOk r ->
+  now < t_gen clk + tc_lifetime c.
+Proof. exact full_login_bound. Qed.
+Print Assumptions c12_relogin_full_login_bound.
+
+(* a login by reset code never authenticates the session; the token handed back is restricted,
+   level None, for the user the code was made for, with the code authenticator's lifetime
+   counted from the login *)
+Theorem c12_relogin_code_login :
+  forall (mac : list N -> list N -> list N) c env s clk uid,
+  s_uid s = 0%N -> le_state_ok env = true -> 0 < le_code_lifetime env ->
+  let exp := round_ms (t_gen clk + le_code_lifetime env) in
+  login mac c env s clk (SecCode (Some uid)) =
+  (s, mkLO (if le_unvalidated env then LValidate300 else LOk200)
+           (Some (issue_at mac (tc_key c) (tc_serial c) exp
+                    (mkG uid 0 (if le_unvalidated env then feature_nologin
+                                else N.lor feature_nologin feature_validated) (le_code_lifetime env)),
+                  exp))).
+Proof. exact code_login. Qed.
+Print Assumptions c12_relogin_code_login.
+
+(* measured against the expiry of the CODE (generated at [created], presented within its life
+   time) the token handed back is late: statement, refuted by the faithful model (the code
+   authenticator reports its full lifetime, not the remaining one: code made at T, presented at
+   T+600 s, token accepted at T+1200 s, code lifetime 900 s) ... *)
+Definition c12_relogin_code_statement : Prop := relogin_code_statement.
+Theorem c12_relogin_code_refuted : ~ c12_relogin_code_statement.
+Proof. exact relogin_code_refuted. Qed.
+Print Assumptions c12_relogin_code_refuted.
+
+(* ... what holds: not accepted beyond one code lifetime counted from the LOGIN (so less than two
+   code lifetimes from the code's creation; the code is single-use - c12_code_once - and every
+   token derived from this one is bounded by it - c12_relogin_chain - so it cannot be repeated) *)
+Theorem c12_relogin_code_partial :
+  forall (mac : list N -> list N -> list N) c env s clk uid s' code tok exp key' sn' now r,
+  0 <= t_gen clk -> 0 < le_code_lifetime env ->
+  login mac c env s clk (SecCode (Some uid)) = (s', mkLO code (Some (tok, exp))) ->
+  authenticate mac key' sn' now tok = TOk r ->
+  now < t_gen clk + le_code_lifetime env.
+Proof. exact code_login_bound. Qed.
+Print Assumptions c12_relogin_code_partial.
+
+(* the temporary token handed to a credential validator when a credential is added to an existing
+   account (replyUpdateUser, Topic.replySetCred): restricted, level None, for that user, and not
+   accepted beyond 24 h from its issue; by c12_relogin_chain the same holds for everything it is
+   exchanged for *)
+Theorem c12_tmp_token_update_cred :
+  forall (mac : list N -> list N -> list N) c now uid tok exp,
+  tmp_token mac c now (update_cred_rec uid) = Some (tok, exp) ->
+  tok_restricted tok = true /\ f_level (tok_fields tok) = 0%N /\ f_uid (tok_fields tok) = (uid mod 2 ^ 64)%N /\
+  forall key' sn' now' r, 0 <= now -> authenticate mac key' sn' now' tok = TOk r -> now' < now + tmp_token_lifetime.
+Proof. exact tmp_token_update. Qed.
+Print Assumptions c12_tmp_token_update_cred.
+
+(* the one made when an account is created (replyCreateUser) carries NO no-login bit and level
+   Auth: it is a 24 h login token (as the code is; presenting it is a full login) *)
+Theorem c12_tmp_token_create_account :
+  forall (mac : list N -> list N -> list N) c now uid tok exp,
+  tmp_token mac c now (create_cred_rec uid) = Some (tok, exp) ->
+  tok_restricted tok = false /\ f_level (tok_fields tok) = 20%N /\ f_uid (tok_fields tok) = (uid mod 2 ^ 64)%N /\
+  forall key' sn' now' r, 0 <= now -> authenticate mac key' sn' now' tok = TOk r -> now' < now + tmp_token_lifetime.
+Proof. exact tmp_token_create. Qed.
+Print Assumptions c12_tmp_token_create_account.
+
+(* non-vacuity: a restricted one hour token exchanged twice, 100 s and 1000 s after issue, on
+   fresh sessions: both times restricted, same expiry second, session not authenticated; the
+   same token without the no-login bit authenticates and is renewed for two weeks *)
+Example c12_ex_relogin :
+  let clk1 := mkClk (wT + 100 * second) (wT + 100 * second + 20000) (wT + 100 * second + 900000) in
+  let clk2 := mkClk (wT + 1000 * second) (wT + 1000 * second + 20000) (wT + 1000 * second + 900000) in
+  match login wmac wcfg wenv (mkSess 0 0) clk1 (SecToken wtok) with
+  | (s1, mkLO LOk200 (Some (tok1, _))) =>
+    s1 = mkSess 0 0 /\ tok_restricted tok1 = true /\ tok_expiry tok1 = tok_expiry wtok /\
+    match login wmac wcfg wenv (mkSess 0 0) clk2 (SecToken tok1) with
+    | (s2, mkLO LOk200 (Some (tok2, _))) =>
+      s2 = mkSess 0 0 /\ tok_restricted tok2 = true /\ tok_expiry tok2 = tok_expiry wtok
+    | _ => False
+    end
+  | _ => False
+  end /\
+  match login wmac wcfg wenv (mkSess 0 0) clk1
+          (SecToken (issue_at wmac [7%N] 5 (wT + 3600 * second) (mkG 12345 20 0 0))) with
+  | (s1, mkLO LOk200 (Some (tok1, _))) =>
+    s1 = mkSess 12345 20 /\ tok_restricted tok1 = false /\ tok_expiry tok1 = 1790000000 + 100 + 1209600
+  | _ => False
+  end.
+Proof. vm_compute. repeat split. Qed.
+
+(* a history of three logins, the second and third presenting what the previous one handed back *)
+Example c12_ex_history :
+  let clk n := mkClk (wT + n * second) (wT + n * second + 20000) (wT + n * second + 900000) in
+  let rq s n := mkRq s wenv (mkSess 0 0) (clk n) in
+  let reqs := [rq (Indep (SecToken wtok)) 100; rq (Earlier 0%nat) 1000; rq (Earlier 1%nat) 3000] in
+  descends reqs 0 2 /\
+  match map out_tok (history wmac wcfg reqs) with
+  | [Some a; Some b; Some d] => tok_expiry d = tok_expiry wtok /\ tok_restricted d = true /\ a = b /\ b = d
+  | _ => False
+  end.
+Proof.
+  split.
+  - eapply desc_step; [eapply desc_step; [apply desc_refl| | |]| | |]; try reflexivity; repeat constructor.
+  - vm_compute. repeat split.
+Qed.
